@@ -9,7 +9,7 @@ BUILD = os.path.join(VERIF, 'build')
 EVID = os.path.join(VERIF, 'evidence')
 REPLAY = os.path.join(VERIF, 'replay')
 
-BASE_FLAGS = ['-std=c++17', '-O2', '-ffp-contract=off', '-fno-fast-math', '-pthread', '-w']
+BASE_FLAGS = ['-std=c++17', '-O2', '-ffp-contract=off', '-fno-fast-math', '-pthread', '-w', '-mno-mmx']   # -mno-mmx: g++ 12 otherwise emits movq %mm0 / movq2dq without emms in vectorised code, which poisons x87 long double arithmetic of the oracles
 ASSUME = ['IEEE-754 binary32/binary64 arithmetic in round-to-nearest (x86-64 SSE math)',
           'floating-point contraction pinned off (-ffp-contract=off); it is a compiler decision, not a GLM setting',
           'glibc libm and libquadmath behave as deterministic functions of their arguments',
@@ -213,7 +213,7 @@ def replay(prop, path, src_default, known_ids):
     src = rec.get('driver') or src_default
     import props as _p; binary = build(src, rec.get('config', 'default'), libs=tuple(_p.PROPS[prop].get('libs', [])))
     words = ','.join(rec['input_bits'])
-    cmd = [binary, '--replay-op', rec['op'], '--replay-words', words]
+    cmd = [binary, '--tier', rec.get('tier', 'quick'), '--replay-op', rec['op'], '--replay-words', words]   # the tier selects the value lattices of drivers whose lattices grow in the thorough tier
     if known_ids:
         cmd += ['--known', ','.join(known_ids)]
     r = subprocess.run(cmd, capture_output=True, text=True)
